@@ -86,6 +86,36 @@ func genC11(t *rapid.T) *CaseC11 {
 			}
 		}
 	}
+	if v <= 31 && (!c.AltKey || v <= 21) && rapid.IntRange(0, 5).Draw(t, "column") == 3 {
+		// one column (footprint of the seed), many vertical pieces: fine voxels with gaps between them, coarser voxels
+		// covering several of them, further fine voxels above and below, in any order (the vertical runs of the entries
+		// touch, overlap and contain one another in every way)
+		c.Boxes = c.Boxes[:1]
+		base := seed.F &^ 15 // a block of 16 fine cells, 8 / 4 / 2 / 1 cells per entry
+		add := func(cell int64, lvl uint) {
+			if lvl > uint(v) {
+				lvl = uint(v)
+			}
+			nb := ref.Box{H: h, X: seed.X, Y: seed.Y, V: v - int64(lvl), F: cell >> lvl}
+			if nb.Valid() {
+				c.Boxes = append(c.Boxes, nb)
+			}
+		}
+		if rapid.Bool().Draw(t, "colPattern") {
+			// separated fine cells first, then the block that contains them, then fine cells of the block again
+			for _, cell := range rapid.SliceOfNDistinct(rapid.Int64Range(0, 15), 2, 5, rapid.ID[int64]).Draw(t, "singles") {
+				add(base+cell, 0)
+			}
+			add(base+rapid.Int64Range(0, 15).Draw(t, "blockAt"), uint(rapid.IntRange(2, 4).Draw(t, "blockLvl")))
+			for i := rapid.IntRange(1, 3).Draw(t, "after"); i > 0; i-- {
+				add(base+rapid.Int64Range(0, 15).Draw(t, "cellAfter"), uint(rapid.IntRange(0, 1).Draw(t, "lvlAfter")))
+			}
+		} else {
+			for i := rapid.IntRange(4, 10).Draw(t, "nCol"); i > 0; i-- {
+				add(base+rapid.Int64Range(-2, 17).Draw(t, "cell"), uint(rapid.IntRange(0, 3).Draw(t, "lvl"))) // entry covers 2^lvl fine cells
+			}
+		}
+	}
 	if rapid.IntRange(0, 59).Draw(t, "long") == 0 {
 		// long list: the seed's row of tiles and vertical cells (plus repeats), converted at its own zooms or coarser
 		n := rapid.SampledFrom([]int{33, 64, 65, 130, 257}).Draw(t, "nLong")
